@@ -73,14 +73,15 @@ def r2_error_discipline(ctx, res):
     res.inst(key, mi.module.loc(mi.node), 'via _least_common_subsumers(synset1, synset2, False)')
     if '_least_common_subsumers(synset1, synset2, False)' not in norm(mi.node):
         res.find(key, mi.module.loc(mi.node), '_most_informative_lcs no longer goes through _least_common_subsumers')
-    p = ctx.repo.func('similarity', 'path')
+    pv = view(ctx, 'similarity', 'path')
+    p = pv.f
     key = 'path-catches-wn-error'
-    tries = [n for n in walk_no_nested(p.node) if isinstance(n, ast.Try)]
-    res.inst(key, p.module.loc(p.node), f'{[norm(h.type) if h.type else None for t in tries for h in t.handlers]}')
-    ok = len(tries) == 1 and len(tries[0].handlers) == 1 and tries[0].handlers[0].type is not None \
-        and norm(tries[0].handlers[0].type) == 'wn.Error' and "float('inf')" in norm(tries[0].handlers[0])
-    if not ok:
-        res.find(key, p.module.loc(p.node), 'path() no longer turns exactly wn.Error (no connecting path) into an infinite distance')
+    exc = sorted({g for r in pv.rows for g in r[2] if g.startswith('<except ')})
+    res.inst(key, pv.loc(), f'{exc}')
+    inf_rets = [r for r in pv.rows if r[0] == 'return' and '<except wn.Error>' in r[2]]
+    if exc != ['<except wn.Error>'] or len(inf_rets) != 1 or "float('inf')" not in inf_rets[0][1]:
+        res.find(key, pv.loc(), f'path() no longer turns exactly wn.Error (no connecting path) into an infinite distance: handlers {exc}, '
+                                f'{[r[1][:50] for r in inf_rets]}')
     for m in ('wup', 'lch', 'res', 'jcn', 'lin'):
         f = ctx.repo.func('similarity', m)
         key = f'no-swallow:{m}'
